@@ -350,10 +350,20 @@ func (s *Sched) Run(maxSteps int) error {
 				wkey = want[:i]
 				warg, _ = strconv.Atoi(want[i+1:])
 			}
+			// a recorded entry is "key|owner|n": the n-th enabled item with that key and owner
+			wowner, wn := "", 0
+			if parts := strings.Split(wkey, "|"); len(parts) == 3 {
+				wkey, wowner = parts[0], parts[1]
+				wn, _ = strconv.Atoi(parts[2])
+			}
+			n := 0
 			for _, it := range en {
-				if it.Key == wkey {
-					pick, arg = it, warg
-					break
+				if it.Key == wkey && (wowner == "" || it.Owner == wowner) {
+					if n == wn {
+						pick, arg = it, warg
+						break
+					}
+					n++
 				}
 			}
 			if pick == nil && s.Diverged < 0 {
@@ -382,7 +392,17 @@ func (s *Sched) Run(maxSteps int) error {
 			}
 		}
 		s.mu.Unlock()
-		k := pick.Key
+		// identify the chosen item among the enabled ones: key, owner and rank among equals
+		rank := 0
+		for _, it := range en {
+			if it == pick {
+				break
+			}
+			if it.Key == pick.Key && it.Owner == pick.Owner {
+				rank++
+			}
+		}
+		k := pick.Key + "|" + pick.Owner + "|" + strconv.Itoa(rank)
 		if pick.ArgMax != nil {
 			k += "#" + strconv.Itoa(arg)
 		}
